@@ -233,6 +233,10 @@ ALPHABET = ['R1', 'R2', 'B1', 'B2', 'C1', 'C2', 'X1', 'X2', 'RC', 'RS', 'N1', 'I
 #      (failpoint injector of W-FAULT); the outcome is discarded -- what follows must be unaffected
 
 
+TARGETED = [['B1', 'D', 'R1', 'R2'], ['R1', 'D', 'R1', 'I1', 'R2'], ['C1', 'D', 'R2', 'R1'], ['B1', 'B2', 'D', 'D', 'R2', 'R1'],
+            ['R1', 'D', 'RS', 'R1', 'RC'], ['B1', 'D', 'C1', 'R1'], ['B1', 'F1', 'D', 'R1', 'R2'], ['I1', 'D', 'I1', 'X1', 'R2']]
+
+
 def render_sig(sig):
     return str(sig)
 
@@ -414,6 +418,14 @@ def run_histories(ctx):
                     for kind in kinds:
                         run_history(ctx, kind, h)
         ctx.exhaustive['histories of length <= 3 over {R1,B1,C1,X1,F1} x %d object kinds' % len(kinds)] = True
+    # histories around a re-decoration (annotate applied to the class-level object while bound copies
+    # exist): every run, every kind
+    idx = 0
+    for h in TARGETED:
+        for kind in kinds:
+            idx += 1
+            if ctx.mine(idx):
+                run_history(ctx, kind, h)
     n = {'quick': 500, 'thorough': 20000}[ctx.tier] // ctx.nshards
     for _ in range(n):
         if ctx.out_of_time('random histories'):
